@@ -51,8 +51,8 @@ def run(tier):
         conform(cfg, ["prims-vectors", vf, o])
         _merge(ck, json.load(open(o)), "" if cfg == "stable" else "[%s] " % cfg)
     nproc = min(12, NCPU)
-    for cfg in ["stable"] + (["simd"] if thorough else []):
-        reps = parallel(cfg, lambda o, k, n: ["prims-sweep-c09", o, ck.seed, k, n, 1 if thorough else 0], nproc, os.path.join(wd, "sweep_" + cfg))
+    for cfg in ["stable", RELEASE] + (["simd"] if thorough else []):
+        reps = parallel(cfg, lambda o, k, n: ["prims-sweep-c09", o, ck.seed, k, n, 1 if thorough and cfg != RELEASE else 0], nproc, os.path.join(wd, "sweep_" + cfg))
         for rep in reps:
             _merge(ck, rep, "" if cfg == "stable" else "[%s] " % cfg)
     if not ck.cov["distinct_nontrivial"]:
